@@ -327,39 +327,3 @@ def term_keeps_charge(ops, sym, regsA):
                 and sum(r not in A for r in up) == sum(r not in A for r in dn))
     return True
 
-
-def bug_class(terms, fermi):
-    """Does some register of some term (after inserting Jordan-Wigner strings when fermi) carry a product
-    of operators whose scalar relative to the named operator it reduces to is not +-1?  This is the input
-    class of the known defect of simplify_single_site_ops; the float tier (which has no exact oracle to
-    attribute a failure) stays outside of it, the exact tier covers it."""
-    for _, ops in terms:
-        full = []
-        if fermi and any(o in LADDER for o, _ in ops):
-            for o, r in ops:
-                if o in LADDER:
-                    full += [("z", k) for k in range(r)]
-                full.append((o, r))
-        else:
-            full = list(ops)
-        for reg in {r for _, r in full}:
-            names = [o for o, r in full if r == reg]
-            if len(names) < 2:
-                continue
-            P = np.eye(2, dtype=complex)
-            for o in names:
-                P = P @ TAB[o]
-            flat = P.reshape(-1)
-            if not np.any(np.abs(flat) > 1e-12):
-                continue
-            pc = flat[int(np.argmax(np.abs(flat) > 0.999999 * np.abs(flat).max()))]
-            s2 = None
-            for o in OPS:
-                R = TAB[o].reshape(-1)
-                rc = R[int(np.argmax(np.abs(R) > 0.999999 * np.abs(R).max()))]
-                if np.allclose(flat / pc, R / rc):
-                    s2 = (pc / rc) ** 2
-                    break
-            if s2 is None or abs(s2 - 1) > 1e-9:
-                return True
-    return False
